@@ -401,7 +401,7 @@ def rule_r8(ctx: Ctx) -> None:
                     if r.raised != "InvalidConstantValueError" or getattr(r, "error_line", None) != want:
                         bad_lazy.append({"text": text_of(lines, final_eol), "fault in": "the attribute `bad` on line %d" % want, "reported": "%s at line %s" % (r.raised, getattr(r, "error_line", None))})
         # faults raised while the statement itself is being visited
-        for lines, cls_name in (([Line("D")] + pre + [Line("X", directive="assert", value=("Boolean", False))], "AssertionCheckFailureError"), ([Line("D")] + pre + [Line("D", directive="bogus")], "InvalidDirectiveError"), ([Line("D")] + pre + [Line("D", directive="sealed")], "InvalidDirectiveError")):
+        for lines, cls_name in (([Line("D")] + pre + [Line("X", directive="assert", value=("Boolean", False))], "AssertionCheckFailureError"), ([Line("D")] + pre + [Line("D", directive="bogus")], "InvalidDirectiveError"), ([Line("D")] + pre + [Line("D", directive="sealed")], "InvalidDirectiveError"), ([Line("D")] + pre + [Line("T", "x")], "InvalidBitLengthError"), ([Line("D")] + pre + [Line("T", "x"), Line("C", comment=" after")], "InvalidBitLengthError")):
             r = parse_lines(pm, lines, True)
             ctx.count()
             want = 1 + len(pre) + extra + 1
